@@ -4,6 +4,7 @@
 package saslfam
 
 import (
+	"net"
 	"crypto/tls"
 	"encoding/base64"
 	"encoding/json"
@@ -36,6 +37,8 @@ type Scenario struct {
 	Suffix string `json:"suffix"` // server nonce suffix class
 	TLSVer string `json:"tlsver"` // "", 1.2, 1.3 (PLUS)
 	Retry  bool   `json:"retry"`  // a second attempt with the same Auth object on a new connection
+	Via    string `json:"via"`    // smtp (smtp.Client.Auth with the caller's Auth object), client (mail.Client dials)
+	Abort  string `json:"abort"`  // the server cuts the first attempt of a retry short: "", t4, drop
 }
 
 // Runner replays one scenario.
@@ -229,9 +232,18 @@ func mechAuth(mech, user, pass string, st *tls.ConnectionState) smtp.Auth {
 // connect returns a client connection to a server running h; for PLUS mechanisms (or tlsver != "")
 // the connection is TLS from the first byte.
 func (rn *Runner) connect(cfg refsmtp.Config, tlsver string) (*smtp.Client, *refsmtp.Server, *tls.ConnectionState, error) {
+	conn, srv, state, err := rn.transport(cfg, tlsver)
+	if err != nil {
+		return nil, nil, nil, err
+	}
+	c, err := smtp.NewClient(conn, "mail.example.test")
+	return c, srv, state, err
+}
+
+// transport returns the client end of a connection to a server running cfg (TLS from the first byte when tlsver is set).
+func (rn *Runner) transport(cfg refsmtp.Config, tlsver string) (net.Conn, *refsmtp.Server, *tls.ConnectionState, error) {
 	r := rn.Rec
 	cl, sv := pipeconn.Pipe()
-	var state *tls.ConnectionState
 	if tlsver != "" {
 		mat, err := refsmtp.Material(rn.TLSDir)
 		if err != nil {
@@ -251,15 +263,12 @@ func (rn *Runner) connect(cfg refsmtp.Config, tlsver string) (*smtp.Client, *ref
 			return nil, nil, nil, fmt.Errorf("tls handshake: %w", err)
 		}
 		st := tc.ConnectionState()
-		state = &st
-		c, err := smtp.NewClient(tc, "mail.example.test")
-		return c, srv, state, err
+		return tc, srv, &st, nil
 	}
 	srv := refsmtp.New(cfg, r)
 	srv.Go(sv)
 	_ = cl.SetDeadline(time.Now().Add(20 * time.Second))
-	c, err := smtp.NewClient(cl, "mail.example.test")
-	return c, srv, nil, err
+	return cl, srv, nil, nil
 }
 
 // Run replays the scenario.
